@@ -288,6 +288,21 @@ public:
     return os.str();
   }
 
+  // ---- state save/load without files (same code paths as the state file: write_state / setup_input) ----
+  std::vector<unsigned char> state_binary()
+  {
+    std::vector<unsigned char> buf;
+    colvars->write_state_buffer(buf);
+    return buf;
+  }
+  // queue a state to be loaded by the first step() of this (fresh) module
+  void queue_state_text(std::string const &txt) { input_stream_from_string("input state string", txt); }
+  void queue_state_binary(std::vector<unsigned char> const &b)
+  {
+    std::vector<unsigned char> c(b);
+    colvars->set_input_state_buffer(c);
+  }
+
   colvar *cv(std::string const &name) { return cvm::colvar_by_name(name); }
   colvarbias *bias(std::string const &name) { return cvm::bias_by_name(name); }
 };
